@@ -27,11 +27,12 @@ Open Scope N_scope.
 Definition span := (N * N)%type.
 Definition sp_start (s : span) : N := fst s.
 
-(* interface mode of a subprogram parameter *)
-Inductive mode := MIn | MOut | MInOut.
+(* interface mode of a subprogram parameter or of a port *)
+Inductive mode := MIn | MOut | MInOut | MBuffer | MLinkage.
 
 Inductive ent_kind :=
-| KSignal                                        (* AnyEntKind::Object(Object{class: Signal}), not a parameter *)
+| KSignal                                        (* AnyEntKind::Object(Object{class: Signal}) without interface: declared signal *)
+| KPort (m : mode)                               (* AnyEntKind::Object(Object{class: Signal, iface: Port}) with its mode *)
 | KOverloaded (formals : list N) (ret_bool : bool) (* AnyEntKind::Overloaded: the formals of its signature; return type BOOLEAN *)
 | KParam (m : mode) (is_sig : bool)              (* AnyEntKind::Object that `is_param()`: its mode; class signal? *)
 | KOther.
@@ -105,7 +106,9 @@ Record process := mkProcess { p_kw : span; p_sens : option sens; p_body : list s
 (* shared helpers                                                                               *)
 (* ------------------------------------------------------------------------------------------ *)
 Definition is_signal (root : N -> ent_kind) (i : N) : bool :=
-  match root i with KSignal => true | KParam _ s => s | _ => false end.
+  (* EntRef::is_signal looks at the object class only: a port of ANY mode is a signal whose value the process
+     may read (VHDL-2008 allows reading an out port); an alias is a different entity (ObjectAlias): KOther *)
+  match root i with KSignal => true | KPort _ => true | KParam _ s => s | _ => false end.
 
 Fixpoint memN (k : N) (l : list N) : bool :=
   match l with [] => false | x :: r => (k =? x) || memN k r end.
@@ -670,10 +673,13 @@ Fixpoint resolved_stmt (root : N -> ent_kind) (s : stmt) : bool :=
 Definition calls_resolved (root : N -> ent_kind) (p : process) : bool := forallb (resolved_stmt root) (p_body p).
 
 (* a root for executable cases: ids in [slo,shi] are signals, the other entities of interest are listed *)
-Fixpoint tab_lookup (tab : list (N * ent_kind)) (i : N) : ent_kind :=
-  match tab with [] => KOther | (k, v) :: r => if i =? k then v else tab_lookup r i end.
+Fixpoint tab_lookup (tab : list (N * ent_kind)) (i : N) : option ent_kind :=
+  match tab with [] => None | (k, v) :: r => if i =? k then Some v else tab_lookup r i end.
 Definition root_tab (slo shi : N) (tab : list (N * ent_kind)) (i : N) : ent_kind :=
-  if (slo <=? i) && (i <=? shi) then KSignal else tab_lookup tab i.
+  match tab_lookup tab i with
+  | Some k => k
+  | None => if (slo <=? i) && (i <=? shi) then KSignal else KOther
+  end.
 
 (* ------------------------------------------------------------------------------------------ *)
 (* projections of the diagnostic list and the witness processes used in Props/C20.v            *)
@@ -689,11 +695,11 @@ Definition tk (n : N) : span := (n, n).
 Definition sg (n i : N) : expr := EDesig (tk n) (Some i).
 Definition lit (n : N) : expr := ELit (tk n).
 Definition assign (tn ti vn vi : N) : stmt := SSigAssign (sg tn ti) (RSimple (Some [(sg vn vi, None)])).
-(* signals 1..6; 200 = procedure pr(a, b, c, d : in bit); 201 = procedure po(signal a : in bit; signal o : out bit) *)
+(* signals 1..6, of which 6 (`o2`) is an OUT PORT of the entity; 200 = procedure pr(a, b, c, d : in bit); 201 = procedure po(signal a : in bit; signal o : out bit) *)
 Definition root6 : N -> ent_kind :=
   root_tab 1 6 [(200, KOverloaded [301; 302; 303; 304] false); (201, KOverloaded [311; 312] false);
                 (301, KParam MIn false); (302, KParam MIn false); (303, KParam MIn false); (304, KParam MIn false);
-                (311, KParam MIn true); (312, KParam MOut true)].
+                (311, KParam MIn true); (312, KParam MOut true); (6, KPort MOut)].
 Definition arg (m : mode) (e : expr) : assoc := mkAssoc m None e.
 
 (* F14:  process (o) begin if a = 1 then o <= x; o2 <= z; elsif x = 2 then o <= y; end if; end process;
@@ -718,6 +724,12 @@ Definition f20n : process :=
     [SCall (5, 17) (EDesig (tk 5) (Some 201))
        [mkAssoc MOut (Some (EDesig (tk 7) (Some 312))) (ECall (9, 12) (sg 9 6) [sg 11 3]);
         mkAssoc MIn (Some (EDesig (tk 14) (Some 311))) (sg 16 1)]].
+
+(* an unlisted OUT PORT that the process reads:  process (a) begin o <= a and o2 ; end process;
+   o 5 <= 6 a 7 and 8 o2 9;  o2 = 6 is an out port of the entity (readable since VHDL-2008) *)
+Definition f_outport : process :=
+  mkProcess (tk 0) (Some (SensNames [sg 2 1]))
+    [SSigAssign (sg 5 5) (RSimple (Some [(EBinary (7, 9) (sg 7 1) (sg 9 6), None)]))].
 
 Definition hyps (root : N -> ent_kind) (p : process) (names : list expr) : Prop :=
   p_sens p = Some (SensNames names) /\ get_likely_process_category root p = Some Combinational /\
